@@ -177,48 +177,49 @@ Example C04_D5_witness :
 Proof. vm_compute. reflexivity. Qed.
 
 (* ---------- tools/gotrans phase 4: bufiox.DefaultReader (reset, acquireSlow, acquire, Next, Peek, Skip, ReadBinary, ReadLen, Release) and maxSizeStats regenerated from bufiox/defaultbuf.go and proved to refine Model/BufReader.v under the abstraction abs (Proofs/GenEquivBufReader.v), per operation and over every history; mal / fr are any allocator models that satisfy malloc_ok / free_ok (the contract of mcache.Malloc / Free at this level); the headline theorems therefore hold of the regenerated definitions ---------- *)
-From GV Require Import Lib.GoSem Gen.Funcs Proofs.GenLib Proofs.GenLib3 Proofs.GenLib4 Proofs.GenEquivBufReader Proofs.GenCorollariesBufio.
+From GV Require Import Lib.GoSem Gen.Funcs Proofs.GenLib Proofs.GenLib3 Proofs.GenLib4 Proofs.GenEquivBufReader.
+From GV Require Proofs.GenCorollariesBufio.
 
 Theorem C04_gen_next_exact_or_error :
-  forall (M : Type) (mal : M -> Z -> Z -> res (M * gcslice)) (fuel : nat), malloc_ok mal -> (64 < fuel)%nat -> forall (D : bytes) (F : Z) (CH : list N) (c : N) (g : gst) (n : Z) (mst : M), RInv D F CH c (abs g) -> pre fuel g n -> 0 <= n -> exists (g' : gst) (mst' : M) (b : bytes) (e : gerror), g_bufiox_DefaultReader_Next source rd_read M mal fuel false (g_buf g) (g_ro g) (g_pend g) (g_src g) (g_ri g) (g_err g) (g_bk g) (g_bi g) n mst = Ok (gret g', mst', b, e) /\ gwf g' /\ (b = seg_at D c (Z.to_N n) /\ e = None /\ len b = Z.to_N n /\ (c + Z.to_N n <= len D)%N /\ RInv D F CH (c + Z.to_N n) (abs g') /\ g_readlen g' = g_readlen g + n \/ (exists ev : Z, b = [] /\ e = Some ev /\ fails D F CH c (Z.to_N n) ev /\ RInv D F CH c (abs g') /\ g_readlen g' = g_readlen g)).
-Proof. exact (@g_C04_next_exact_or_error). Qed.
+  forall (M : Type) (mal : M -> Z -> Z -> res (M * gcslice)) (fuel : nat), malloc_ok mal -> (64 < fuel)%nat -> forall (D : bytes) (F : Z) (CH : list N) (c : N) (g : gst) (n : Z) (mst : M), RInv D F CH c (abs g) -> GenCorollariesBufio.pre fuel g n -> 0 <= n -> exists (g' : gst) (mst' : M) (b : bytes) (e : gerror), g_bufiox_DefaultReader_Next source rd_read M mal fuel false (g_buf g) (g_ro g) (g_pend g) (g_src g) (g_ri g) (g_err g) (g_bk g) (g_bi g) n mst = Ok (gret g', mst', b, e) /\ gwf g' /\ (b = seg_at D c (Z.to_N n) /\ e = None /\ len b = Z.to_N n /\ (c + Z.to_N n <= len D)%N /\ RInv D F CH (c + Z.to_N n) (abs g') /\ GenCorollariesBufio.g_readlen g' = GenCorollariesBufio.g_readlen g + n \/ (exists ev : Z, b = [] /\ e = Some ev /\ fails D F CH c (Z.to_N n) ev /\ RInv D F CH c (abs g') /\ GenCorollariesBufio.g_readlen g' = GenCorollariesBufio.g_readlen g)).
+Proof. exact (@GenCorollariesBufio.g_C04_next_exact_or_error). Qed.
 
 Theorem C04_gen_peek_never_advances :
-  forall (M : Type) (mal : M -> Z -> Z -> res (M * gcslice)) (fuel : nat), malloc_ok mal -> (64 < fuel)%nat -> forall (D : bytes) (F : Z) (CH : list N) (c : N) (g : gst) (n : Z) (mst : M), RInv D F CH c (abs g) -> pre fuel g n -> 0 <= n -> exists (g' : gst) (mst' : M) (b : bytes) (e : gerror), g_bufiox_DefaultReader_Peek source rd_read M mal fuel false (g_buf g) (g_ro g) (g_pend g) (g_src g) (g_ri g) (g_err g) (g_bk g) (g_bi g) n mst = Ok (gret g', mst', b, e) /\ gwf g' /\ RInv D F CH c (abs g') /\ g_readlen g' = g_readlen g /\ (b = seg_at D c (Z.to_N n) /\ e = None /\ len b = Z.to_N n /\ (c + Z.to_N n <= len D)%N \/ (exists ev : Z, b = [] /\ e = Some ev /\ fails D F CH c (Z.to_N n) ev)).
-Proof. exact (@g_C04_peek_never_advances). Qed.
+  forall (M : Type) (mal : M -> Z -> Z -> res (M * gcslice)) (fuel : nat), malloc_ok mal -> (64 < fuel)%nat -> forall (D : bytes) (F : Z) (CH : list N) (c : N) (g : gst) (n : Z) (mst : M), RInv D F CH c (abs g) -> GenCorollariesBufio.pre fuel g n -> 0 <= n -> exists (g' : gst) (mst' : M) (b : bytes) (e : gerror), g_bufiox_DefaultReader_Peek source rd_read M mal fuel false (g_buf g) (g_ro g) (g_pend g) (g_src g) (g_ri g) (g_err g) (g_bk g) (g_bi g) n mst = Ok (gret g', mst', b, e) /\ gwf g' /\ RInv D F CH c (abs g') /\ GenCorollariesBufio.g_readlen g' = GenCorollariesBufio.g_readlen g /\ (b = seg_at D c (Z.to_N n) /\ e = None /\ len b = Z.to_N n /\ (c + Z.to_N n <= len D)%N \/ (exists ev : Z, b = [] /\ e = Some ev /\ fails D F CH c (Z.to_N n) ev)).
+Proof. exact (@GenCorollariesBufio.g_C04_peek_never_advances). Qed.
 
 Theorem C04_gen_skip_exact_or_error :
-  forall (M : Type) (mal : M -> Z -> Z -> res (M * gcslice)) (fuel : nat), malloc_ok mal -> (64 < fuel)%nat -> forall (D : bytes) (F : Z) (CH : list N) (c : N) (g : gst) (n : Z) (mst : M), RInv D F CH c (abs g) -> pre fuel g n -> 0 <= n -> exists (g' : gst) (mst' : M) (e : gerror), g_bufiox_DefaultReader_Skip source rd_read M mal fuel false (g_buf g) (g_ro g) (g_pend g) (g_src g) (g_ri g) (g_err g) (g_bk g) (g_bi g) n mst = Ok (gret g', mst', e) /\ gwf g' /\ (e = None /\ (c + Z.to_N n <= len D)%N /\ RInv D F CH (c + Z.to_N n) (abs g') /\ g_readlen g' = g_readlen g + n \/ (exists ev : Z, e = Some ev /\ fails D F CH c (Z.to_N n) ev /\ RInv D F CH c (abs g') /\ g_readlen g' = g_readlen g)).
-Proof. exact (@g_C04_skip_exact_or_error). Qed.
+  forall (M : Type) (mal : M -> Z -> Z -> res (M * gcslice)) (fuel : nat), malloc_ok mal -> (64 < fuel)%nat -> forall (D : bytes) (F : Z) (CH : list N) (c : N) (g : gst) (n : Z) (mst : M), RInv D F CH c (abs g) -> GenCorollariesBufio.pre fuel g n -> 0 <= n -> exists (g' : gst) (mst' : M) (e : gerror), g_bufiox_DefaultReader_Skip source rd_read M mal fuel false (g_buf g) (g_ro g) (g_pend g) (g_src g) (g_ri g) (g_err g) (g_bk g) (g_bi g) n mst = Ok (gret g', mst', e) /\ gwf g' /\ (e = None /\ (c + Z.to_N n <= len D)%N /\ RInv D F CH (c + Z.to_N n) (abs g') /\ GenCorollariesBufio.g_readlen g' = GenCorollariesBufio.g_readlen g + n \/ (exists ev : Z, e = Some ev /\ fails D F CH c (Z.to_N n) ev /\ RInv D F CH c (abs g') /\ GenCorollariesBufio.g_readlen g' = GenCorollariesBufio.g_readlen g)).
+Proof. exact (@GenCorollariesBufio.g_C04_skip_exact_or_error). Qed.
 
 Theorem C04_gen_readbinary_exact :
-  forall (M : Type) (mal : M -> Z -> Z -> res (M * gcslice)) (fuel : nat), malloc_ok mal -> (64 < fuel)%nat -> forall (D : bytes) (F : Z) (CH : list N) (c : N) (g : gst) (bs : bytes) (mst : M), RInv D F CH c (abs g) -> pre fuel g (glen bs) -> exists (g' : gst) (mst' : M) (m : N) (e : gerror), (m <= len bs)%N /\ (c + m <= len D)%N /\ len (seg_at D c m) = m /\ g_bufiox_DefaultReader_ReadBinary source rd_read M mal fuel false (g_buf g) (g_ro g) (g_pend g) (g_src g) (g_ri g) (g_err g) (g_bk g) (g_bi g) bs mst = Ok (gret g', seg_at D c m ++ drop m bs, mst', Z.of_N m, e) /\ gwf g' /\ RInv D F CH (c + m) (abs g') /\ g_readlen g' = g_readlen g + Z.of_N m /\ (m = len bs /\ e = None \/ (m < len bs)%N /\ (exists ev : Z, e = Some ev /\ fails D F CH c (len bs) ev)).
-Proof. exact (@g_C04_readbinary_exact). Qed.
+  forall (M : Type) (mal : M -> Z -> Z -> res (M * gcslice)) (fuel : nat), malloc_ok mal -> (64 < fuel)%nat -> forall (D : bytes) (F : Z) (CH : list N) (c : N) (g : gst) (bs : bytes) (mst : M), RInv D F CH c (abs g) -> GenCorollariesBufio.pre fuel g (glen bs) -> exists (g' : gst) (mst' : M) (m : N) (e : gerror), (m <= len bs)%N /\ (c + m <= len D)%N /\ len (seg_at D c m) = m /\ g_bufiox_DefaultReader_ReadBinary source rd_read M mal fuel false (g_buf g) (g_ro g) (g_pend g) (g_src g) (g_ri g) (g_err g) (g_bk g) (g_bi g) bs mst = Ok (gret g', seg_at D c m ++ drop m bs, mst', Z.of_N m, e) /\ gwf g' /\ RInv D F CH (c + m) (abs g') /\ GenCorollariesBufio.g_readlen g' = GenCorollariesBufio.g_readlen g + Z.of_N m /\ (m = len bs /\ e = None \/ (m < len bs)%N /\ (exists ev : Z, e = Some ev /\ fails D F CH c (len bs) ev)).
+Proof. exact (@GenCorollariesBufio.g_C04_readbinary_exact). Qed.
 
 Theorem C04_gen_negative_count :
   forall (M : Type) (mal : M -> Z -> Z -> res (M * gcslice)) (fuel : nat), (64 < fuel)%nat -> forall (g : gst) (n : Z) (mst : M), n < 0 -> g_bufiox_DefaultReader_Next source rd_read M mal fuel false (g_buf g) (g_ro g) (g_pend g) (g_src g) (g_ri g) (g_err g) (g_bk g) (g_bi g) n mst = Ok (gret g, mst, [], Some e_negcount) /\ g_bufiox_DefaultReader_Peek source rd_read M mal fuel false (g_buf g) (g_ro g) (g_pend g) (g_src g) (g_ri g) (g_err g) (g_bk g) (g_bi g) n mst = Ok (gret g, mst, [], Some e_negcount) /\ g_bufiox_DefaultReader_Skip source rd_read M mal fuel false (g_buf g) (g_ro g) (g_pend g) (g_src g) (g_ri g) (g_err g) (g_bk g) (g_bi g) n mst = Ok (gret g, mst, Some e_negcount).
-Proof. exact (@g_C04_negative_count). Qed.
+Proof. exact (@GenCorollariesBufio.g_C04_negative_count). Qed.
 
 Theorem C04_gen_release_resets_readlen :
-  forall (M : Type) (fr : M -> gcslice -> res M) (fuel : nat), free_ok fr -> (64 < fuel)%nat -> forall (D : bytes) (F : Z) (CH : list N) (c : N) (g : gst) (e : gerror) (mst : M), RInv D F CH c (abs g) -> gwf g -> gcs_cap (g_buf g) < 2 ^ 62 -> exists (g' : gst) (mst' : M), g_bufiox_DefaultReader_Release source M fr false (g_buf g) (g_ro g) (g_pend g) (g_src g) (g_ri g) (g_err g) (g_bk g) (g_bi g) e mst = Ok (gret g', mst', gnil) /\ gwf g' /\ RInv D F CH c (abs g') /\ g_readlen g' = 0.
-Proof. exact (@g_C04_release_resets_readlen). Qed.
+  forall (M : Type) (fr : M -> gcslice -> res M) (fuel : nat), free_ok fr -> (64 < fuel)%nat -> forall (D : bytes) (F : Z) (CH : list N) (c : N) (g : gst) (e : gerror) (mst : M), RInv D F CH c (abs g) -> gwf g -> gcs_cap (g_buf g) < 2 ^ 62 -> exists (g' : gst) (mst' : M), g_bufiox_DefaultReader_Release source M fr false (g_buf g) (g_ro g) (g_pend g) (g_src g) (g_ri g) (g_err g) (g_bk g) (g_bi g) e mst = Ok (gret g', mst', gnil) /\ gwf g' /\ RInv D F CH c (abs g') /\ GenCorollariesBufio.g_readlen g' = 0.
+Proof. exact (@GenCorollariesBufio.g_C04_release_resets_readlen). Qed.
 
 Theorem C04_gen_inv_history :
-  forall (M : Type) (mal : M -> Z -> Z -> res (M * gcslice)) (fr : M -> gcslice -> res M) (fuel : nat), malloc_ok mal -> free_ok fr -> (64 < fuel)%nat -> forall (D : bytes) (F : Z) (CH : list N) (ops : list rop) (c : N) (g : gst) (mst : M), RInv D F CH c (abs g) -> gwf g -> run_ok fuel (abs g) ops -> exists (g' : gst) (mst' : M) (outs : list rout) (c' : N), g_run mal fr fuel (g, mst) ops = Ok (g', mst', map (fun p : rop * rout => obs_of (fst p) (snd p)) (combine ops outs)) /\ Datatypes.length outs = Datatypes.length ops /\ gwf g' /\ (c <= c')%N /\ RInv D F CH c' (abs g').
-Proof. exact (@g_C04_inv_history). Qed.
+  forall (M : Type) (mal : M -> Z -> Z -> res (M * gcslice)) (fr : M -> gcslice -> res M) (fuel : nat), malloc_ok mal -> free_ok fr -> (64 < fuel)%nat -> forall (D : bytes) (F : Z) (CH : list N) (ops : list rop) (c : N) (g : gst) (mst : M), RInv D F CH c (abs g) -> gwf g -> fuel_ok fuel g -> run_small (abs g) ops -> exists (g' : gst) (mst' : M) (outs : list rout) (c' : N), g_run mal fr fuel (g, mst) ops = Ok (g', mst', map (fun p : rop * rout => obs_of (fst p) (snd p)) (combine ops outs)) /\ Datatypes.length outs = Datatypes.length ops /\ gwf g' /\ (c <= c')%N /\ RInv D F CH c' (abs g').
+Proof. exact (@GenCorollariesBufio.g_C04_inv_history). Qed.
 
 Theorem C04_gen_reader_refines_cursor :
-  forall (M : Type) (mal : M -> Z -> Z -> res (M * gcslice)) (fr : M -> gcslice -> res M) (fuel : nat), malloc_ok mal -> free_ok fr -> (64 < fuel)%nat -> forall (s : source) (ops : list rop) (mst : M), spos s = 0%N -> run_ok fuel (new_reader s) ops -> exists (g' : gst) (mst' : M) (outs : list rout), g_run mal fr fuel (g_fresh s gcs_nil, mst) ops = Ok (g', mst', map (fun p : rop * rout => obs_of (fst p) (snd p)) (combine ops outs)) /\ Datatypes.length outs = Datatypes.length ops /\ cursor_run (sdata s) (sfinal s) (schunks s) cursor0 ops outs = true.
-Proof. exact (@g_C04_reader_refines_cursor). Qed.
+  forall (M : Type) (mal : M -> Z -> Z -> res (M * gcslice)) (fr : M -> gcslice -> res M) (fuel : nat), malloc_ok mal -> free_ok fr -> (64 < fuel)%nat -> forall (s : source) (ops : list rop) (mst : M), spos s = 0%N -> (loop_fuel (cur_of s) <= fuel)%nat -> run_small (new_reader s) ops -> exists (g' : gst) (mst' : M) (outs : list rout), g_run mal fr fuel (g_fresh s gcs_nil, mst) ops = Ok (g', mst', map (fun p : rop * rout => obs_of (fst p) (snd p)) (combine ops outs)) /\ Datatypes.length outs = Datatypes.length ops /\ cursor_run (sdata s) (sfinal s) (schunks s) cursor0 ops outs = true.
+Proof. exact (@GenCorollariesBufio.g_C04_reader_refines_cursor). Qed.
 
 Theorem C04_gen_bytes_reader_refines_cursor :
-  forall (M : Type) (mal : M -> Z -> Z -> res (M * gcslice)) (fr : M -> gcslice -> res M) (fuel : nat), malloc_ok mal -> free_ok fr -> (64 < fuel)%nat -> forall (mem : bytes) (l : N) (ops : list rop) (mst : M), (l <= len mem)%N -> run_ok fuel (new_bytes_reader (take l mem) (len mem)) ops -> exists (g' : gst) (mst' : M) (outs : list rout), g_run mal fr fuel (g_fresh fake_source (Some (mem, Z.of_N l)), mst) ops = Ok (g', mst', map (fun p : rop * rout => obs_of (fst p) (snd p)) (combine ops outs)) /\ Datatypes.length outs = Datatypes.length ops /\ cursor_run (take l mem) e_eof [] cursor0 ops outs = true.
-Proof. exact (@g_C04_bytes_reader_refines_cursor). Qed.
+  forall (M : Type) (mal : M -> Z -> Z -> res (M * gcslice)) (fr : M -> gcslice -> res M) (fuel : nat), malloc_ok mal -> free_ok fr -> (64 < fuel)%nat -> forall (mem : bytes) (l : N) (ops : list rop) (mst : M), (l <= len mem)%N -> run_small (new_bytes_reader (take l mem) (len mem)) ops -> exists (g' : gst) (mst' : M) (outs : list rout), g_run mal fr fuel (g_fresh fake_source (Some (mem, Z.of_N l)), mst) ops = Ok (g', mst', map (fun p : rop * rout => obs_of (fst p) (snd p)) (combine ops outs)) /\ Datatypes.length outs = Datatypes.length ops /\ cursor_run (take l mem) e_eof [] cursor0 ops outs = true.
+Proof. exact (@GenCorollariesBufio.g_C04_bytes_reader_refines_cursor). Qed.
 
 Theorem C04_gen_fitting_next_succeeds :
-  forall (M : Type) (mal : M -> Z -> Z -> res (M * gcslice)) (fuel : nat), malloc_ok mal -> (64 < fuel)%nat -> forall (D : bytes) (F : Z) (CH : list N) (c : N) (g : gst) (n : N) (mst : M), RInv D F CH c (abs g) -> pre fuel g (Z.of_N n) -> may_stall CH = false -> (c + n <= len D)%N -> exists (g' : gst) (mst' : M), g_bufiox_DefaultReader_Next source rd_read M mal fuel false (g_buf g) (g_ro g) (g_pend g) (g_src g) (g_ri g) (g_err g) (g_bk g) (g_bi g) (Z.of_N n) mst = Ok (gret g', mst', seg_at D c n, None) /\ gwf g' /\ RInv D F CH (c + n) (abs g').
-Proof. exact (@g_C04_fitting_next_succeeds). Qed.
+  forall (M : Type) (mal : M -> Z -> Z -> res (M * gcslice)) (fuel : nat), malloc_ok mal -> (64 < fuel)%nat -> forall (D : bytes) (F : Z) (CH : list N) (c : N) (g : gst) (n : N) (mst : M), RInv D F CH c (abs g) -> GenCorollariesBufio.pre fuel g (Z.of_N n) -> may_stall CH = false -> (c + n <= len D)%N -> exists (g' : gst) (mst' : M), g_bufiox_DefaultReader_Next source rd_read M mal fuel false (g_buf g) (g_ro g) (g_pend g) (g_src g) (g_ri g) (g_err g) (g_bk g) (g_bi g) (Z.of_N n) mst = Ok (gret g', mst', seg_at D c n, None) /\ gwf g' /\ RInv D F CH (c + n) (abs g').
+Proof. exact (@GenCorollariesBufio.g_C04_fitting_next_succeeds). Qed.
 
 Theorem C04_gen_overlong_next_fails :
-  forall (M : Type) (mal : M -> Z -> Z -> res (M * gcslice)) (fuel : nat), malloc_ok mal -> (64 < fuel)%nat -> forall (D : bytes) (F : Z) (CH : list N) (c : N) (g : gst) (n : N) (mst : M), RInv D F CH c (abs g) -> pre fuel g (Z.of_N n) -> (len D < c + n)%N -> exists (g' : gst) (mst' : M) (ev : Z), g_bufiox_DefaultReader_Next source rd_read M mal fuel false (g_buf g) (g_ro g) (g_pend g) (g_src g) (g_ri g) (g_err g) (g_bk g) (g_bi g) (Z.of_N n) mst = Ok (gret g', mst', [], Some ev) /\ gwf g' /\ fails D F CH c n ev /\ RInv D F CH c (abs g').
-Proof. exact (@g_C04_overlong_next_fails). Qed.
+  forall (M : Type) (mal : M -> Z -> Z -> res (M * gcslice)) (fuel : nat), malloc_ok mal -> (64 < fuel)%nat -> forall (D : bytes) (F : Z) (CH : list N) (c : N) (g : gst) (n : N) (mst : M), RInv D F CH c (abs g) -> GenCorollariesBufio.pre fuel g (Z.of_N n) -> (len D < c + n)%N -> exists (g' : gst) (mst' : M) (ev : Z), g_bufiox_DefaultReader_Next source rd_read M mal fuel false (g_buf g) (g_ro g) (g_pend g) (g_src g) (g_ri g) (g_err g) (g_bk g) (g_bi g) (Z.of_N n) mst = Ok (gret g', mst', [], Some ev) /\ gwf g' /\ fails D F CH c n ev /\ RInv D F CH c (abs g').
+Proof. exact (@GenCorollariesBufio.g_C04_overlong_next_fails). Qed.
